@@ -73,7 +73,17 @@ func engModelled(t *Target, od bool) bool {
 	case "genrule":
 		switch t.Cmd.Op {
 		case "concat", "const", "copydir", "listnames", "fail", "catall":
-			return len(t.OutDirs) == 0 && len(t.Tools) == 0
+			// list-form tools = [labels] are modelled for every command: they enter the source key (Engine.source_key) and
+			// a command that does not mention $TOOLS never sees them (Engine.src_ins)
+			if t.ToolName != "" {
+				return false
+			}
+			for _, x := range t.Tools {
+				if !strings.HasPrefix(x, "//") {
+					return false
+				}
+			}
+			return len(t.OutDirs) == 0
 		case "usetool", "toolnames", "usentool": // the model's UseTool / ToolNames / UseNTool: the tools are labels
 			// the model reads "the tools are declared in dict form" off the command: usentool <-> tools = {name: [...]}
 			if (t.Cmd.Op == "usentool") != (t.ToolName != "") || (t.ToolName != "" && t.Cmd.Arg != t.ToolName) {
@@ -91,6 +101,14 @@ func engModelled(t *Target, od bool) bool {
 			}
 			for _, x := range t.Srcs {
 				if strings.HasPrefix(x, "//") || strings.HasPrefix(x, ":") {
+					return false
+				}
+			}
+			if t.ToolName != "" {
+				return false
+			}
+			for _, x := range t.Tools {
+				if !strings.HasPrefix(x, "//") {
 					return false
 				}
 			}
